@@ -1,7 +1,7 @@
 /* C13: call histories of the File API against a reference session machine, with release accounting.
  *
  * hist=<ops> with ops separated by '.':  M open(missing file)  U open(unwritable path, out)  I open(valid file, in)
- *   O open(out)  A open again (the same call as the successful open)  R read  W write(obj)  C close  D destroy (last)
+ *   O open(out)  A open again (the same call as the successful open)  B open again in the other direction  R read  W write(obj)  C close  D destroy (last)
  * n=<objects in the valid input file>  bound=<deviation bound>  static=1 (the 6 static priority orders)
  *
  * Oracle: is_open() after every step, good()/eof() in read mode per the reference machine, objects delivered are the
@@ -95,6 +95,11 @@ static std::string body() {
             else if (op == "A") {
                 if (st == OPEN_IN) f->open(INPATH.c_str());
                 else if (st == OPEN_OUT) f->open(OUTPATH.c_str(), std::ios_base::out);
+            }
+            else if (op == "B") {
+                /* open again in the other direction: ignored as well, the session keeps its mode */
+                if (st == OPEN_IN) f->open(OUTPATH.c_str(), std::ios_base::out);
+                else if (st == OPEN_OUT) f->open(INPATH.c_str());
             }
             else if (op == "R") {
                 ObjectHeaderBase * o = f->read();
